@@ -21,6 +21,7 @@ type vfUD struct {
 	Gen    int32              `json:"gen,omitempty"`
 	Topics map[string][]int32 `json:"topics,omitempty"`
 	From   string             `json:"from,omitempty"` // prev/stale: take the previous plan of this member instead of one's own
+	Step   int                `json:"step,omitempty"` // rejoin: report what this member was given by the plan of that (earlier) step
 }
 
 type vfGMember struct {
@@ -139,6 +140,12 @@ func vfGenGroupCase(t *rapid.T, strategy string, maxM, maxT, maxP, maxSteps int,
 	for i := 0; i < nM; i++ {
 		members = append(members, vfGMember{ID: vfDrawMemberID(t, taken, fmt.Sprintf("m%d", i)), Topics: mkSub(i, fmt.Sprintf("sub%d", i)), UD: vfUD{Kind: "none"}})
 	}
+	type vfDeparted struct {
+		m        vfGMember
+		lastStep int
+	}
+	var departed []vfDeparted
+	rejoinStep := 0
 	steps := 1
 	if strategy == "sticky" {
 		steps = rapid.IntRange(1, maxSteps).Draw(t, "steps")
@@ -159,9 +166,22 @@ func vfGenGroupCase(t *rapid.T, strategy string, maxM, maxT, maxP, maxSteps int,
 	}
 	for s := 0; s < steps; s++ {
 		what := "initial"
+		rejoined := ""
 		if s > 0 {
-			what = rapid.SampledFrom([]string{"same", "join", "leave", "subchange", "grow", "shrink", "droptopic", "join", "leave", "joinwide"}).Draw(t, fmt.Sprintf("step%d", s))
+			what = rapid.SampledFrom([]string{"same", "join", "leave", "subchange", "grow", "shrink", "droptopic", "join", "leave", "joinwide", "rejoin"}).Draw(t, fmt.Sprintf("step%d", s))
 			switch what {
+			case "rejoin":
+				// a member that left earlier comes back and reports the last assignment it knows of (its generation is
+				// older than everybody else's): what a consumer does after it fell out of the group for a while
+				if len(departed) > 0 && len(members) < maxM+2 {
+					i := rapid.IntRange(0, len(departed)-1).Draw(t, fmt.Sprintf("rejoin%d", s))
+					d := departed[i]
+					departed = append(departed[:i:i], departed[i+1:]...)
+					members = append(members, vfGMember{ID: d.m.ID, Topics: append([]string(nil), d.m.Topics...)})
+					rejoined, rejoinStep = d.m.ID, d.lastStep
+				} else {
+					what = "same"
+				}
 			case "joinwide":
 				// whatever the subscription mode of the group, the newcomer subscribes to a random (often large) subset:
 				// it competes with members that can each take only part of what it can take
@@ -180,6 +200,7 @@ func vfGenGroupCase(t *rapid.T, strategy string, maxM, maxT, maxP, maxSteps int,
 			case "leave":
 				if len(members) > 1 {
 					i := rapid.IntRange(0, len(members)-1).Draw(t, fmt.Sprintf("leave%d", s))
+					departed = append(departed, vfDeparted{m: members[i], lastStep: s - 1})
 					members = append(members[:i:i], members[i+1:]...)
 				} else {
 					what = "same"
@@ -225,6 +246,9 @@ func vfGenGroupCase(t *rapid.T, strategy string, maxM, maxT, maxP, maxSteps int,
 			if s > 0 {
 				ud = vfUD{Kind: "prev", Gen: int32(s)}
 			}
+			if rejoined != "" && ms[i].ID == rejoined {
+				ud = vfUD{Kind: "rejoin", Step: rejoinStep, Gen: int32(rejoinStep + 1)}
+			}
 			if adversarial && s > 0 && rapid.IntRange(0, 3).Draw(t, fmt.Sprintf("adv%d.%d", s, i)) == 0 {
 				c.Honest = false
 				kind := rapid.SampledFrom([]string{"none", "prevV0", "stale", "custom", "customV0", "copy", "samegen"}).Draw(t, fmt.Sprintf("advk%d.%d", s, i))
@@ -266,7 +290,7 @@ func vfTopicsFor(st *vfGStep) map[string][]int32 {
 	return out
 }
 
-func vfEncodeUD(ud vfUD, prevPlan BalanceStrategyPlan, self string) ([]byte, error) {
+func vfEncodeUD(ud vfUD, prevPlan BalanceStrategyPlan, self string, plans ...BalanceStrategyPlan) ([]byte, error) {
 	src := self
 	if ud.From != "" {
 		src = ud.From
@@ -274,6 +298,13 @@ func vfEncodeUD(ud vfUD, prevPlan BalanceStrategyPlan, self string) ([]byte, err
 	switch ud.Kind {
 	case "none", "":
 		return nil, nil
+	case "rejoin":
+		// a member that was away for a while comes back with the last assignment it knows of
+		tp := map[string][]int32{}
+		if ud.Step >= 0 && ud.Step < len(plans) && plans[ud.Step][src] != nil {
+			tp = plans[ud.Step][src]
+		}
+		return encode(&StickyAssignorUserDataV1{Topics: tp, Generation: ud.Gen}, nil)
 	case "prev":
 		tp := prevPlan[src]
 		if tp == nil {
@@ -406,6 +437,7 @@ func vfRunGroupCaseInner(c *vfGCase, r *vfcore.Rec, prop string) (fail *vfcore.F
 	var prevPlan BalanceStrategyPlan
 	var prevView *vfPlanView
 	var prevStep *vfGStep
+	var plans []BalanceStrategyPlan
 	nontrivial := false
 	r.Class("strategy=" + c.Strategy)
 	for si := range c.Steps {
@@ -413,7 +445,7 @@ func vfRunGroupCaseInner(c *vfGCase, r *vfcore.Rec, prop string) (fail *vfcore.F
 		topics := vfTopicsFor(st)
 		members := map[string]ConsumerGroupMemberMetadata{}
 		for _, m := range st.Members {
-			ud, err := vfEncodeUD(m.UD, prevPlan, m.ID)
+			ud, err := vfEncodeUD(m.UD, prevPlan, m.ID, plans...)
 			if err != nil {
 				return vfcore.Failf("harness", "encode user data: %v", err)
 			}
@@ -459,6 +491,7 @@ func vfRunGroupCaseInner(c *vfGCase, r *vfcore.Rec, prop string) (fail *vfcore.F
 			}
 		}
 		prevPlan, prevView, prevStep = plan, view, st
+		plans = append(plans, plan)
 	}
 	if !c.Honest {
 		r.Class("userdata=adversarial")
@@ -562,8 +595,8 @@ func vfCheckSticky(c *vfGCase, si int, st, prev *vfGStep, topics map[string][]in
 	if vfPlanKey(again) != vfPlanKey(plan) {
 		return vfcore.Failf("sticky-not-fixed-point", "re-planning with unchanged input moved partitions:\n before %s\n after  %s", vfPlanKey(plan), vfPlanKey(again))
 	}
-	if prev == nil {
-		return nil
+	if prev == nil || st.What == "rejoin" {
+		return nil // (a member reporting an older plan: the clauses below compare with what everybody reported)
 	}
 	// pairwise swaps within a topic
 	type mv struct{ from, to string }
